@@ -14,6 +14,7 @@ import (
 	"os"
 	"path/filepath"
 	"runtime"
+	"runtime/pprof"
 	"sort"
 	"strings"
 	"sync"
@@ -24,6 +25,7 @@ import (
 )
 
 var workBase string
+var stopProfile = func() {}
 
 func cleanup() {
 	if workBase != "" {
@@ -296,6 +298,12 @@ func main() {
 	if err := os.MkdirAll(workBase, 0o755); err != nil {
 		vlib.Fatal("cannot create %s: %v", workBase, err)
 	}
+	if pf := os.Getenv("C18_CPUPROFILE"); pf != "" {
+		f, _ := os.Create(pf)
+		_ = pprof.StartCPUProfile(f)
+		defer pprof.StopCPUProfile()
+		stopProfile = pprof.StopCPUProfile
+	}
 	run := vlib.NewRun(*prop, "model_checking")
 	x := &explorer{run: run, col: &collector{m: map[string]*entry{}}, triples: vlib.NewCounter(), classes: vlib.NewCounter(),
 		shapes: vlib.NewCounter(), sampled: map[string]bool{}}
@@ -425,6 +433,7 @@ func main() {
 		"the decoy oracle looks for the substring 'ecoy' (only decoy files contain it) in the output or error; apart from that and the word 'cycle' no error wording is asserted",
 		"symlinks, absolute import paths, import paths with backslashes, an empty File.FileName and colliding path.Base(go_package) namespaces are outside the alphabet",
 	)
+	stopProfile()
 	cleanup()
 	run.Finish()
 }
